@@ -295,6 +295,50 @@ def run(chk):
         chk.part('chunk_extension', histories_replayed=ctot)
         chk.cov['traces_validated_against_impl'] += ctot
         os.remove(cres.dump_path)
+    # two detectors alive at once (two components assessed side by side): process_hcm_first / process_hcm_second of the one between those of the
+    # other, in every merge order (Interleave.tla); each recorder ends as when its detector runs alone
+    ires = tlc.run(os.path.join(SPEC, 'common', 'Interleave.tla'), os.path.join(SPEC, 'common', 'MC_Interleave_22.cfg'), dump=True, timeout=300)
+    chk.tlc('MC_Interleave_22.cfg', ires, 'merge orders of two call histories of two calls each; an object depends on its own calls only')
+    if ires.dump_path and os.path.exists(ires.dump_path):
+        from ..tlaparse import parse_dump
+        orders = [st['order'] for st in parse_dump(ires.dump_path) if st['ia'] == 2 and st['ib'] == 2]
+        os.remove(ires.dump_path)
+        irng = random.Random(chk.seed * 37 + 5)
+        nint = 0
+        for _ in range(8 if quick else 60):
+            law = irng.choice(['lin', 'cubic'])
+            seqs = [[irng.randint(-4, 4) for _ in range(irng.randint(4, 10))] for _ in 'AB']
+            if any(len(set(sq)) < 2 for sq in seqs):
+                continue
+            try:
+                alone = [hcm.project(hcm.two_pass(sq, law)) for sq in seqs]
+            except Exception:
+                continue
+            for order in orders:
+                nint += 1
+                dets = [hcm.new_detector(hcm.ExactLaw(law)), hcm.new_detector(hcm.ExactLaw(law))]
+                k = [0, 0]
+                try:
+                    for who in order:
+                        w = 0 if who == 'A' else 1
+                        buf = np.asarray(seqs[w], dtype=np.float64).copy()
+                        (dets[w].process_hcm_first if k[w] == 0 else dets[w].process_hcm_second)(buf)
+                        buf[:] = 7.7e77
+                        k[w] += 1
+                    got = [hcm.project(d) for d in dets]
+                except Exception as ex:
+                    chk.violation('HCM detector raised when two detectors were run alternately: %r' % ex, {'law': law, 'sequences': seqs, 'order': list(order)}, part='interleaved')
+                    continue
+                for w in (0, 1):
+                    if not rows_equal(got[w]['rows'], alone[w]['rows']) or got[w]['strains'] != alone[w]['strains']:
+                        chk.violation('the recorder of an HCM detector differs from its run alone when a second detector is run in between its two passes',
+                                      {'law': law, 'sequences': seqs, 'order': list(order), 'which': 'AB'[w]}, alone[w]['rows'][:6], got[w]['rows'][:6], part='interleaved')
+                        break
+                else:
+                    chk.nontrivial(('interleaved', law, tuple(seqs[0]), tuple(seqs[1]), order))
+        chk.evals(nint)
+        chk.cov['traces_validated_against_impl'] += nint
+        chk.part('interleaved', runs=nint, merge_orders=len(orders))
     # (C) recorded executions: two-pass runs of longer sequences and raw process()/flush histories, per law, validated by TLC
     rng = random.Random(chk.seed * 977 + 29)
     for law, scale in LAWS.items():
@@ -347,7 +391,7 @@ def run(chk):
                        'columns (loads, S, eps, LF extremes, S_a, S_m, eps_a, eps_m, R, flags, run) and the strain lists are compared exactly; seeded sub-samples are also run '
                        'negated and as batches of 2-3 proportional points (batch point = point alone). Non-trivial = >= 2 recorded hystereses. '
                        'Recorded longer two-pass runs and raw process()/flush histories are validated by Trace_HCM.tla; runs with REAL laws (Binned ExtendedNeuber / SeegerBeste) are validated against the specification driven by the tabulated law.')
-    chk.cov['rule'] += ' Also: strictly alternating sequences over -3..3 (x2) with the cubic law (a fixed sample replayed); chunks are handed over in a re-used buffer that is overwritten after each call.'
+    chk.cov['rule'] += ' Also: strictly alternating sequences over -3..3 (x2) with the cubic law (a fixed sample replayed); chunks are handed over in a re-used buffer that is overwritten after each call; two detectors run alternately in all 6 merge orders of their two passes (Interleave.tla) record what they record alone.'
     chk.cov['exhaustive'] = True
     chk.assumptions += ['the independent implementation is the TLA+ HCMNL specification, written from the procedure pyLife documents (cases a-c, Memory 1-3); the guideline text itself is not available offline',
                         'exact integer laws injected through the public constructor argument; real laws (ExtendedNeuber, SeegerBeste, Binned) are exercised by C10',
